@@ -503,6 +503,41 @@ def bi_itertools_zip_longest(e, st, args, kw, node):
 bi_zip_longest = bi_itertools_zip_longest
 
 
+def bi_scipy_signal_correlate(e, st, args, kw, node):
+    """scipy.signal.correlate(a, b, mode='valid'): ASSUMED an array of len(a) - len(b) + 1 values when a is at least as long as b (values unconstrained:
+    floating-point FFT numerics are outside the verifier)"""
+    st, a = _materialize(e, st, args[0])
+    st, b = _materialize(e, st, args[1])
+    mode = kw.get('mode')
+    if not (isinstance(mode, VStr) and mode.s == 'valid'):
+        raise Unsupported("correlate in a mode other than 'valid'")
+    e.assumptions.add("scipy.signal.correlate(a, b, mode='valid'): len(a) - len(b) + 1 values for len(a) >= len(b) >= 1; the values themselves are not modelled")
+    r = e.fresh_list(REAL, 'corr')
+    st.assume(r.n >= 0, z3.Implies(z3.And(a.n >= b.n, b.n >= 1), r.n == a.n - b.n + 1))
+    return st, st.new_list(r)
+
+
+def bi_scipy_signal_find_peaks(e, st, args, kw, node):
+    """scipy.signal.find_peaks(x, ...): ASSUMED (positions, properties): strictly increasing indices into x and one entry per peak in each property array"""
+    st, x = _materialize(e, st, args[0])
+    e.assumptions.add('scipy.signal.find_peaks(x, ...): strictly increasing indices into x; properties peak_heights / left_ips / right_ips with one entry per peak')
+    P = e.fresh_list(INT, 'peaks')
+    k, k2 = z3.Int(fresh_name('fpk')), z3.Int(fresh_name('fpk2'))
+    p = lambda i: z3.Select(P.arrs[0], i)
+    st.assume(P.n >= 0, P.n <= x.n,
+              z3.ForAll([k], z3.Implies(z3.And(0 <= k, k < P.n), z3.And(0 <= p(k), p(k) < x.n)), patterns=[p(k)]),
+              z3.ForAll([k, k2], z3.Implies(z3.And(0 <= k, k < k2, k2 < P.n), p(k) < p(k2)), patterns=[MP(p(k), p(k2))]))
+    props = []
+    for name in ('peak_heights', 'left_ips', 'right_ips'):
+        a = e.fresh_list(REAL, 'fp_' + name, n=P.n)
+        props.append((name, a))
+    return st, VTuple((P, VRecord(tuple(props))))
+
+
+def bi_warnings_simplefilter(e, st, args, kw, node):
+    return st, VNone()
+
+
 def bi_numpy_argpartition(e, st, args, kw, node):
     """np.argpartition(a, kth): ASSUMED a permutation p of 0..n-1 with a[p[i]] <= a[p[kth]] <= a[p[j]] for i < kth < j; requires 0 <= kth < n"""
     st, a = _materialize(e, st, args[0])
@@ -728,7 +763,7 @@ bi_groupby = bi_itertools_groupby
 
 
 # ---------------------------------------------------------------------------------------------- list methods
-def call_listmeth(e, st, ref: VListRef, name, args, node):
+def call_listmeth(e, st, ref: VListRef, name, args, node, kwargs=None):
     l = st.lists[ref.lid]
     site = e.site(st, 'call')
     if name == 'append':
@@ -768,6 +803,17 @@ def call_listmeth(e, st, ref: VListRef, name, args, node):
         st2, other = _materialize(e, st, args[0])
         st.lists[ref.lid] = e.concat(st, l, other)
         yield st, VNone()
+    elif name == 'max':
+        # numpy array method a.max(initial=c): ASSUMED at least c and at least every element
+        e.assumptions.add('numpy array.max(initial=c): a value >= c and >= every element')
+        init = (kwargs or {}).get('initial')
+        if args or init is None:
+            raise Unsupported("array.max() without initial=")
+        m = z3.Real(fresh_name('amax'))
+        k = z3.Int(fresh_name('mxk'))
+        st.assume(m >= z3.ToReal(e.num(init)) if z3.is_int(e.num(init)) else m >= e.num(init),
+                  z3.ForAll([k], z3.Implies(z3.And(0 <= k, k < l.n), m >= e.num(l.at(k))), patterns=[z3.Select(l.arrs[0], l.off + k)]))
+        yield st, VReal(m)
     elif name == 'index':
         x = args[0]
         e.assumptions.add('list.index(x): the first index whose element == x; ValueError if none')
